@@ -21,6 +21,16 @@ import copy
 
 MAX_ROUNDS = 6
 
+# Known private helpers whose only job is to compute a value or to guard a precondition for their (few) callers.  The
+# rules state their obligations at the callers; these helpers are therefore always spliced, so that the analysed form is
+# the same whether a maintainer keeps them, inlines them by hand, or extracts them again under another name.
+ALWAYS_INLINE = {
+    "transactions::Op::to_delta",
+    "transactions::range_bounds",
+    "staking::StakeKeeper::validate_percentage",
+    "bank::coins_to_string",
+}
+
 
 def _map_place(p, lm):
     p["l"] = lm(p["l"])
@@ -152,9 +162,9 @@ class Inliner:
         for d in self.funcs:
             if d["kind"] not in ("fn", "assoc") or d["derived"] or d.get("exp"):
                 continue
-            if d["key"] in self.known:
+            if d["key"] in self.known and d["key"] not in ALWAYS_INLINE:
                 continue
-            if d["vis"] == "pub":
+            if d["vis"] == "pub" and d["key"] not in ALWAYS_INLINE:
                 continue
             if d.get("impl_trait") or d.get("in_trait"):
                 continue        # a new trait method is new interface, not an extracted helper
